@@ -238,7 +238,7 @@ def analyse(case, res):
 
 def run(ctx):
     rng = ctx.rng
-    nwalks = 100 if ctx.tier == "quick" else 5000
+    nwalks = 60 if ctx.tier == "quick" else 5000
     if ctx.replay:
         rp = json.load(open(ctx.replay))
         cases = [rp["case"]]
@@ -337,7 +337,7 @@ MANIFEST = {
              "spec-state resources (harness/steplib); the model runs the same schedule in Coq and every post-state (network bags, hasLock, msg, q, every pc, "
              "the two history lists) and every outcome (commit / disabled / finished / assertion) is compared; an implementation-side oracle checks mutual exclusion, "
              "grant-only-to-waiting and FIFO directly on the observed Go states."),
-    "level_note": ("Trusted: Coq kernel; the hand-written model (tie = differential testing on 100 quick / 5000 thorough schedules for 1-5 clients, all seven labels and both "
+    "level_note": ("Trusted: Coq kernel; the hand-written model (tie = differential testing on 60 quick / 5000 thorough schedules for 1-5 clients, all seven labels and both "
                    "branches of every await reached); the spec-state resources that replace the deployment mailboxes (their atomicity/FIFO is C01/C06). "
                    "The liveness properties of the spec (ProgressOK, NoPriorityInversion) are not claimed."),
 }
